@@ -1,5 +1,6 @@
-import LinOp.C17.Proofs
+import LinOp.C17.Proofs2
 import LinOp.Generated.C17Table
+import LinOp.Generated.C17Bodies
 /-!
 C17 — settings contexts are properly scoped and never leak.  Property theorems only.
 
@@ -99,6 +100,418 @@ example : WN (fun _ => Kind.value) 0
   exact WN.block 2 false [Event.enter (0, 1), Event.exit (0, 1) true] []
     (WN.block 1 true [] [] WN.nil (by simp) WN.nil) (by simp [Event.obj?]) WN.nil
 
+/-! ### Session 5: class-level setters, re-used / re-entered objects, non-LIFO, composites, slots -/
+
+/-- Class-level `cls._set_state(v)` / `cls._set_value(v)` / `cls._set_value(f, d, h)` is exactly the write
+performed by `__enter__` with instance value `v` (so `enter_takes_effect` applies to it), and it touches no
+context object. -/
+theorem class_setter_takes_effect (K : Nat → Kind) (s : State) (c : Nat) (v : Slots) :
+    (step K s (Event.set c v)).globals c = setOnEnter (K c) (s.globals c) v ∧
+    (step K s (Event.set c v)).objs = s.objs := by
+  simp [step]
+
+/-- `__enter__` of an existing object installs its instance value and snapshots the value in force. -/
+theorem enter_takes_effect_step (K : Nat → Kind) (s : State) (o : ObjId) (ob : Obj) (h : s.objs o = some ob) :
+    (step K s (Event.enter o)).globals o.1 = setOnEnter (K o.1) (s.globals o.1) ob.inst ∧
+    (step K s (Event.enter o)).objs o = some { ob with saved := s.globals o.1 } := by
+  simp [step, h]
+
+/-- **Re-used objects**: after ANY earlier history `h0a ++ construct o :: h0b` (in which `o` may have been entered
+and exited any number of times, in any order, with class-level setters in between), one more
+`enter o … exit o` block (body `h` arbitrary but not naming `o`) restores exactly the value in force just before
+that entry.  No escape clause. -/
+theorem exit_restores_entry_value_reused (K : Nat → Kind) (s : State) (o : ObjId) (inst : Slots)
+    (h0a h0b h : List Event) (exc : Bool) (hno : ∀ e ∈ h, e.obj? ≠ some o) :
+    settingVal (K o.1)
+        ((run K (run K s (h0a ++ Event.construct o inst :: h0b)) (Event.enter o :: h ++ [Event.exit o exc])).globals o.1)
+      = settingVal (K o.1) ((run K s (h0a ++ Event.construct o inst :: h0b)).globals o.1) := by
+  rcases exit_restores_entry_value K (run K s (h0a ++ Event.construct o inst :: h0b)) o h exc hno with h1 | h1
+  · exact h1
+  · exfalso
+    have h2 : ((run K s (h0a ++ Event.construct o inst :: h0b)).objs o).isSome := by
+      rw [run_append, run_cons]
+      exact run_objs_isSome K _ _ o (step_construct_isSome K _ o inst)
+    rw [h1] at h2; simp at h2
+
+example : ∃ (h0b : List Event), Event.enter (0, 1) ∈ h0b ∧ Event.exit (0, 1) false ∈ h0b ∧ Event.set 0 ⟨some 3, none, none⟩ ∈ h0b :=
+  ⟨[Event.enter (0, 1), Event.set 0 ⟨some 3, none, none⟩, Event.exit (0, 1) false], by simp⟩
+
+/-- **Nested re-entry of the SAME object** (`with c: with c: …`): the context objects are not re-entrant; what the
+code guarantees is that BOTH exits write back the value in force just before the INNER entry (the outer
+snapshot is overwritten).  `h1` is arbitrary; `h2`, `h3` do not name `o`. -/
+theorem reentry_nested_guarantee (K : Nat → Kind) (s : State) (o : ObjId) (h1 h2 h3 : List Event) (e1 e2 : Bool)
+    (hob : (s.objs o).isSome)
+    (hno2 : ∀ e ∈ h2, e.obj? ≠ some o) (hno3 : ∀ e ∈ h3, e.obj? ≠ some o) :
+    settingVal (K o.1) ((run K (run K s (Event.enter o :: h1))
+        (Event.enter o :: h2 ++ Event.exit o e1 :: h3 ++ [Event.exit o e2])).globals o.1)
+      = settingVal (K o.1) ((run K s (Event.enter o :: h1)).globals o.1) := by
+  obtain ⟨ob1, hob1⟩ := Option.isSome_iff_exists.mp (run_objs_isSome K (Event.enter o :: h1) s o hob)
+  generalize run K s (Event.enter o :: h1) = s1 at hob1 ⊢
+  have ha := step_enter_some K s1 o ob1 hob1
+  have hb := (run_objs_other K h2 _ o hno2).trans ha
+  have hc : (step K (run K (step K s1 (Event.enter o)) h2) (Event.exit o e1)).objs o
+      = some { ob1 with saved := s1.globals o.1 } := by
+    rw [step_exit_objs]; exact hb
+  have hd := (run_objs_other K h3 _ o hno3).trans hc
+  simp only [List.cons_append, run_cons, run_append, run_nil]
+  rw [exit_restores_saved K _ o e2 _ hd]
+
+/-- …so a nested re-entry leaks the instance value: `with c(5): with c(5): pass` started at 1 ends at 5. -/
+theorem reentry_nested_leaks_counterexample :
+    ((run (fun _ => Kind.value) ⟨fun _ => ⟨some 1, none, none⟩, fun _ => none⟩
+      [Event.construct (0, 1) ⟨some 5, none, none⟩, Event.enter (0, 1), Event.enter (0, 1),
+       Event.exit (0, 1) false, Event.exit (0, 1) false]).globals 0).a = some 5 := by decide
+
+/-- **Non-LIFO interleaving** (generators / threads / manual `__enter__`/`__exit__`; the state is process-global,
+there are no thread-locals): each `__exit__` writes back what ITS OWN `__enter__` observed, whatever happened in
+between.  For the crossing pattern `enter o1 … enter o2 … exit o1 … exit o2` the final value is therefore the one
+in force just before `enter o2` — i.e. `o1`'s value if both are contexts of the same setting. -/
+theorem interleaved_non_lifo (K : Nat → Kind) (s : State) (o1 o2 : ObjId) (h1 h2 h3 : List Event) (e1 e2 : Bool)
+    (hob : (s.objs o2).isSome) (hne : o1 ≠ o2)
+    (hno2 : ∀ e ∈ h2, e.obj? ≠ some o2) (hno3 : ∀ e ∈ h3, e.obj? ≠ some o2) :
+    settingVal (K o2.1) ((run K (run K s (Event.enter o1 :: h1))
+        (Event.enter o2 :: h2 ++ Event.exit o1 e1 :: h3 ++ [Event.exit o2 e2])).globals o2.1)
+      = settingVal (K o2.1) ((run K s (Event.enter o1 :: h1)).globals o2.1) := by
+  have hno : ∀ e ∈ h2 ++ Event.exit o1 e1 :: h3, e.obj? ≠ some o2 := by
+    intro e he
+    rcases List.mem_append.mp he with h | h
+    · exact hno2 e h
+    · rcases List.mem_cons.mp h with h | h
+      · subst h; simpa [Event.obj?] using hne
+      · exact hno3 e h
+  have key := exit_restores_entry_value K (run K s (Event.enter o1 :: h1)) o2 _ e2 hno
+  simp only [List.cons_append, List.append_assoc] at key ⊢
+  rcases key with h | h
+  · exact h
+  · exfalso
+    have h2' := run_objs_isSome K (Event.enter o1 :: h1) s o2 hob
+    rw [h] at h2'; simp at h2'
+
+/-- …and that is a leak for two contexts of one setting: started at 1, `enter A(5); enter B(7); exit A; exit B` ends at 5. -/
+theorem non_lifo_leaks_counterexample :
+    ((run (fun _ => Kind.value) ⟨fun _ => ⟨some 1, none, none⟩, fun _ => none⟩
+      [Event.construct (0, 1) ⟨some 5, none, none⟩, Event.construct (0, 2) ⟨some 7, none, none⟩,
+       Event.enter (0, 1), Event.enter (0, 2), Event.exit (0, 1) false, Event.exit (0, 2) false]).globals 0).a = some 5 := by
+  decide
+
+/-- Histories as produced by `with` statements over single contexts and composites: ONE stack across all
+settings; construction and probe pokes anywhere; no class-level setter. -/
+inductive WNAll (K : Nat → Kind) : List Event → Prop
+  | nil : WNAll K []
+  | ctor (o : ObjId) (inst : Slots) (h : List Event) : WNAll K h → WNAll K (Event.construct o inst :: h)
+  | poke (c : Nat) (r : Bool) (v : Val) (h : List Event) : K c = .flag r → WNAll K h → WNAll K (Event.poke c v :: h)
+  | block (o : ObjId) (exc : Bool) (h1 h2 : List Event) :
+      WNAll K h1 → (∀ e ∈ h1, e.obj? ≠ some o) → WNAll K h2 →
+      WNAll K (Event.enter o :: h1 ++ Event.exit o exc :: h2)
+  /-- a `with` block over a composite: members of pairwise different setting classes, entered in member order and
+      exited in the SAME order (not LIFO), as `fast_computations` / `linalg_dtypes` do -/
+  | comp (ps : List ObjId) (exc : Bool) (h1 h2 : List Event) :
+      (ps.map Prod.fst).Nodup → WNAll K h1 → (∀ e ∈ h1, ∀ p ∈ ps, e.obj? ≠ some p) → WNAll K h2 →
+      WNAll K (enterAll ps ++ h1 ++ exitAll ps exc ++ h2)
+
+private theorem WN_of_other {K : Nat → Kind} {c : Nat} (l : List Event) (h : ∀ e ∈ l, e.cls ≠ c) : WN K c l := by
+  induction l with
+  | nil => exact WN.nil
+  | cons e l ih =>
+    exact WN.other e l (h e List.mem_cons_self) (ih (fun e' he' => h e' (List.mem_cons_of_mem _ he')))
+
+private theorem WN_append {K : Nat → Kind} {c : Nat} {h1 h2 : List Event} (w1 : WN K c h1) (w2 : WN K c h2) :
+    WN K c (h1 ++ h2) := by
+  induction w1 with
+  | nil => exact w2
+  | other e h hne _ ih => exact WN.other e _ hne ih
+  | ctor k inst h _ ih => exact WN.ctor k inst _ ih
+  | poke r v h hk _ ih => exact WN.poke r v _ hk ih
+  | block k exc h1 h2' w1 hno _ _ ih2 =>
+    have : (Event.enter (c, k) :: h1 ++ Event.exit (c, k) exc :: h2') ++ h2
+        = Event.enter (c, k) :: h1 ++ Event.exit (c, k) exc :: (h2' ++ h2) := by simp
+    rw [this]; exact WN.block k exc h1 _ w1 hno ih2
+
+/-- A single-stack history is well nested for every class. -/
+theorem WNAll_WN {K : Nat → Kind} {h : List Event} (w : WNAll K h) (c : Nat) : WN K c h := by
+  induction w with
+  | nil => exact WN.nil
+  | ctor o inst h _ ih =>
+    by_cases hc : o.1 = c
+    · obtain ⟨c', k⟩ := o; simp only at hc; subst hc; exact WN.ctor k inst h ih
+    · exact WN.other _ _ (by simpa [Event.cls] using hc) ih
+  | poke c' r v h hk _ ih =>
+    by_cases hc : c' = c
+    · subst hc; exact WN.poke r v h hk ih
+    · exact WN.other _ _ (by simpa [Event.cls] using hc) ih
+  | block o exc h1 h2 _ hno _ ih1 ih2 =>
+    by_cases hc : o.1 = c
+    · obtain ⟨c', k⟩ := o; simp only at hc; subst hc; exact WN.block k exc h1 h2 ih1 hno ih2
+    · have : Event.enter o :: h1 ++ Event.exit o exc :: h2
+          = [Event.enter o] ++ (h1 ++ ([Event.exit o exc] ++ h2)) := by simp
+      rw [this]
+      exact WN_append (WN.other _ _ (by simpa [Event.cls] using hc) WN.nil)
+        (WN_append ih1 (WN.other _ _ (by simpa [Event.cls] using hc) ih2))
+  | comp ps exc h1 h2 hnd _ hno _ ih1 ih2 =>
+    by_cases hc : ∃ p ∈ ps, p.1 = c
+    · obtain ⟨p, hp, hpc⟩ := hc
+      obtain ⟨l1, l2, rfl⟩ := List.append_of_mem hp
+      have hd1 : ∀ q ∈ l1, q.1 ≠ p.1 := by
+        intro q hq heq
+        simp only [List.map_append, List.map_cons, List.nodup_append, List.nodup_cons] at hnd
+        exact hnd.2.2 q.1 (List.mem_map_of_mem hq) p.1 (List.mem_cons_self) heq
+      have hd2 : ∀ q ∈ l2, q.1 ≠ p.1 := by
+        intro q hq heq
+        simp only [List.map_append, List.map_cons, List.nodup_append, List.nodup_cons] at hnd
+        exact hnd.2.1.1 (heq ▸ List.mem_map_of_mem hq)
+      have hq1 : ∀ q ∈ l1, q ≠ p := fun q hq heq => hd1 q hq (heq ▸ rfl)
+      have hq2 : ∀ q ∈ l2, q ≠ p := fun q hq heq => hd2 q hq (heq ▸ rfl)
+      have hmid : ∀ e ∈ enterAll l2 ++ h1 ++ exitAll l1 exc, e.obj? ≠ some p := by
+        intro e he
+        rcases List.mem_append.mp he with he | he
+        · rcases List.mem_append.mp he with he | he
+          · exact enterAll_obj l2 p hq2 e he
+          · exact hno e he p hp
+        · exact exitAll_obj l1 exc p hq1 e he
+      have hshape : enterAll (l1 ++ p :: l2) ++ h1 ++ exitAll (l1 ++ p :: l2) exc ++ h2
+          = enterAll l1 ++ (Event.enter p :: (enterAll l2 ++ h1 ++ exitAll l1 exc) ++ Event.exit p exc :: (exitAll l2 exc ++ h2)) := by
+        simp [enterAll, exitAll]
+      rw [hshape]
+      obtain ⟨c', k⟩ := p
+      simp only at hpc; subst hpc
+      refine WN_append (WN_of_other _ (enterAll_cls l1 c' hd1)) ?_
+      refine WN.block k exc _ _ ?_ hmid (WN_append (WN_of_other _ (exitAll_cls l2 exc c' hd2)) ih2)
+      exact WN_append (WN_append (WN_of_other _ (enterAll_cls l2 c' hd2)) ih1) (WN_of_other _ (exitAll_cls l1 exc c' hd1))
+    · have hall : ∀ q ∈ ps, q.1 ≠ c := fun q hq heq => hc ⟨q, hq, heq⟩
+      exact WN_append (WN_append (WN_append (WN_of_other _ (enterAll_cls ps c hall)) ih1)
+        (WN_of_other _ (exitAll_cls ps exc c hall))) ih2
+
+/-- **Any well-nested history is the identity on every setting**: after any single-stack `with` history (any
+depth, any mix of settings, pre-constructed and re-used objects, exceptional exits) EVERY setting class has its
+initial value. -/
+theorem wellNested_history_is_identity (K : Nat → Kind) (h : List Event) (hw : WNAll K h) (s : State) (c : Nat) :
+    settingVal (K c) ((run K s h).globals c) = settingVal (K c) (s.globals c) :=
+  lifo_restores_all K c h (WNAll_WN hw c) s
+
+example : WNAll (fun _ => Kind.value)
+    [Event.construct (0, 1) ⟨some 5, none, none⟩, Event.construct (1, 1) ⟨none, none, none⟩,
+     Event.enter (0, 1), Event.enter (1, 1), Event.exit (1, 1) true, Event.exit (0, 1) false,
+     Event.enter (0, 1), Event.exit (0, 1) false] := by
+  refine WNAll.ctor _ _ _ (WNAll.ctor _ _ _ ?_)
+  exact WNAll.block (0, 1) false [Event.enter (1, 1), Event.exit (1, 1) true] _
+    (WNAll.block (1, 1) true [] [] WNAll.nil (by simp) WNAll.nil) (by simp [Event.obj?])
+    (WNAll.block (0, 1) false [] [] WNAll.nil (by simp) WNAll.nil)
+
+example : WNAll (fun _ => Kind.flag false)
+    (enterAll [(0, 1), (1, 1), (2, 1)] ++ [Event.enter (1, 2), Event.exit (1, 2) true] ++ exitAll [(0, 1), (1, 1), (2, 1)] false ++ []) :=
+  WNAll.comp [(0, 1), (1, 1), (2, 1)] false _ [] (by decide)
+    (WNAll.block (1, 2) true [] [] WNAll.nil (by simp) WNAll.nil) (by simp [Event.obj?]) WNAll.nil
+
+/-- **The default is observed outside**: after a history that is well nested for flag class `c`, `on()` and
+`is_default()` report what they reported before — in particular a flag that was never set still reports its
+`_default` and `is_default() = True`. -/
+theorem default_observed_outside (K : Nat → Kind) (c : Nat) (h : List Event) (hw : WN K c h) (s : State) (dflt : Bool) :
+    flagOn dflt ((run K s h).globals c) = flagOn dflt (s.globals c) ∧
+    isDefault ((run K s h).globals c) = isDefault (s.globals c) ∧
+    ((s.globals c).a = none → flagOn dflt ((run K s h).globals c) = dflt) := by
+  have ha := settingVal_a _ _ _ (lifo_restores_all K c h hw s)
+  refine ⟨?_, ?_, ?_⟩
+  · simp [flagOn, ha]
+  · simp [isDefault, ha]
+  · intro h0; simp [flagOn, ha, h0]
+
+/-- Event `e` names no value for slot `i` of per-dtype class `c` (constructor argument / class-level setter
+argument for that dtype is `None`). -/
+def Event.leavesSlot (c : Nat) (i : Slot) : Event → Prop
+  | .construct o inst => o.1 = c → inst.get i = none
+  | .set c' v => c' = c → v.get i = none
+  | .poke c' _ => c' ≠ c
+  | _ => True
+
+/-- Invariant: slot `i` of class `c` holds `v0`, and so does every snapshot; no object names the slot. -/
+structure SlotInv (c : Nat) (i : Slot) (v0 : Val) (s : State) : Prop where
+  g : (s.globals c).get i = v0
+  objs : ∀ k ob, s.objs (c, k) = some ob → ob.inst.get i = none ∧ ob.saved.get i = v0
+
+private theorem slotInv_step (K : Nat → Kind) (c : Nat) (i : Slot) (v0 : Val) (hk : K c = .dtype)
+    (s : State) (e : Event) (he : e.leavesSlot c i) (inv : SlotInv c i v0 s) : SlotInv c i v0 (step K s e) := by
+  obtain ⟨hg, hobjs⟩ := inv
+  cases e with
+  | construct o inst =>
+    refine ⟨hg, ?_⟩
+    intro k ob hk'
+    simp only [step, upd] at hk'
+    split at hk'
+    · rename_i heq
+      have hc : o.1 = c := by rw [← heq]
+      simp only [Option.some.injEq] at hk'; subst hk'
+      exact ⟨he hc, by simp only; rw [hc]; exact hg⟩
+    · exact hobjs k ob hk'
+  | enter o =>
+    simp only [step]
+    split
+    · exact ⟨hg, hobjs⟩
+    · rename_i ob0 hob0
+      by_cases hc : o.1 = c
+      · obtain ⟨c', k0⟩ := o; simp only at hc; subst hc
+        have h0 := hobjs k0 ob0 hob0
+        refine ⟨?_, ?_⟩
+        · simp only [upd_same]; rw [hk, setOnEnter_dtype_get _ _ _ h0.1]; exact hg
+        · intro k ob hk'
+          simp only [upd] at hk'
+          split at hk'
+          · simp only [Option.some.injEq] at hk'; subst hk'; exact ⟨h0.1, hg⟩
+          · exact hobjs k ob hk'
+      · refine ⟨?_, ?_⟩
+        · dsimp only; rw [upd_other _ _ _ _ (Ne.symm hc)]; exact hg
+        · intro k ob hk'
+          have : (c, k) ≠ o := by intro hh; apply hc; rw [← hh]
+          dsimp only at hk'
+          rw [upd_other _ _ _ _ this] at hk'
+          exact hobjs k ob hk'
+  | exit o exc =>
+    simp only [step]
+    split
+    · exact ⟨hg, hobjs⟩
+    · rename_i ob0 hob0
+      refine ⟨?_, hobjs⟩
+      by_cases hc : o.1 = c
+      · obtain ⟨c', k0⟩ := o; simp only at hc; subst hc
+        simp only [upd_same]; rw [hk]; exact (hobjs k0 ob0 hob0).2
+      · dsimp only; rw [upd_other _ _ _ _ (Ne.symm hc)]; exact hg
+  | poke c' v =>
+    refine ⟨?_, hobjs⟩
+    simp only [step]
+    rw [upd_other _ _ _ _ (Ne.symm he)]; exact hg
+  | set c' v =>
+    refine ⟨?_, hobjs⟩
+    simp only [step]
+    by_cases hc : c' = c
+    · subst hc; simp only [upd_same]; rw [hk, setOnEnter_dtype_get _ _ _ (he rfl)]; exact hg
+    · rw [upd_other _ _ _ _ (Ne.symm hc)]; exact hg
+
+/-- **dtype slot isolation over arbitrary histories** (all three slots `i`): as long as no constructor call and no
+class-level `_set_value` names a value for dtype slot `i` of per-dtype setting `c`, that slot NEVER changes —
+for every history whatsoever (non-LIFO exits, nested re-entry, exceptional exits, events of other settings),
+not only well-nested ones. -/
+theorem dtype_slot_never_touched (K : Nat → Kind) (c : Nat) (i : Slot) (v0 : Val) (hk : K c = .dtype)
+    (h : List Event) (hl : ∀ e ∈ h, e.leavesSlot c i) (s : State) (inv : SlotInv c i v0 s) :
+    SlotInv c i v0 (run K s h) := by
+  induction h generalizing s with
+  | nil => exact inv
+  | cons e h ih =>
+    rw [run_cons]
+    exact ih (fun e' he' => hl e' (List.mem_cons_of_mem _ he')) _
+      (slotInv_step K c i v0 hk s e (hl e List.mem_cons_self) inv)
+
+/-- Non-vacuity: every state without context objects satisfies the invariant (for its current slot value), and a
+history writing the float and half slots leaves the double slot alone. -/
+example (g : Nat → Slots) (c : Nat) (i : Slot) : SlotInv c i ((g c).get i) ⟨g, fun _ => none⟩ :=
+  ⟨rfl, fun _ _ h => by simp at h⟩
+
+example : ∀ e ∈ [Event.construct (5, 1) ⟨some 3, none, some 4⟩, Event.enter (5, 1), Event.set 5 ⟨some 9, none, none⟩,
+    Event.enter (5, 1), Event.exit (5, 1) true], e.leavesSlot 5 Slot.b := by
+  simp [Event.leavesSlot, Slots.get]
+
+/-- `deterministic_probes`: every write of the flag's state (`__enter__`, `__exit__`, class-level `_set_state`)
+clears the probe-vector cache. -/
+theorem probe_cache_reset (K : Nat → Kind) (s : State) (c : Nat) (hk : K c = .flag true) :
+    (∀ k ob, s.objs (c, k) = some ob → ((step K s (Event.enter (c, k))).globals c).b = none) ∧
+    (∀ k ob exc, s.objs (c, k) = some ob → ((step K s (Event.exit (c, k) exc)).globals c).b = none) ∧
+    (∀ v, ((step K s (Event.set c v)).globals c).b = none) := by
+  refine ⟨?_, ?_, ?_⟩
+  · intro k ob h; simp [step, h, hk, setOnEnter]
+  · intro k ob exc h; simp [step, h, hk, restore]
+  · intro v; simp [step, hk, setOnEnter]
+
+/-- **Composite block** (`with fast_computations(…):` / `with linalg_dtypes(…):`): members of pairwise different
+setting classes, entered in list order and exited in the SAME list order (as the code does), any body `h` that
+does not name the members: every member's setting is restored. -/
+theorem composite_block_restores (K : Nat → Kind) (s : State) (ps : List ObjId) (h : List Event) (exc : Bool)
+    (hnd : (ps.map Prod.fst).Nodup) (hob : ∀ p ∈ ps, (s.objs p).isSome)
+    (hno : ∀ e ∈ h, ∀ p ∈ ps, e.obj? ≠ some p) :
+    ∀ p ∈ ps, settingVal (K p.1) ((run K s (enterAll ps ++ h ++ exitAll ps exc)).globals p.1)
+      = settingVal (K p.1) (s.globals p.1) := by
+  intro p hp
+  obtain ⟨l1, l2, rfl⟩ := List.append_of_mem hp
+  have hd1 : ∀ q ∈ l1, q.1 ≠ p.1 := by
+    intro q hq heq
+    simp only [List.map_append, List.map_cons, List.nodup_append, List.nodup_cons] at hnd
+    exact hnd.2.2 q.1 (List.mem_map_of_mem hq) p.1 (List.mem_cons_self) heq
+  have hd2 : ∀ q ∈ l2, q.1 ≠ p.1 := by
+    intro q hq heq
+    simp only [List.map_append, List.map_cons, List.nodup_append, List.nodup_cons] at hnd
+    exact hnd.2.1.1 (heq ▸ List.mem_map_of_mem hq)
+  have hq1 : ∀ q ∈ l1, q ≠ p := fun q hq heq => hd1 q hq (heq ▸ rfl)
+  have hq2 : ∀ q ∈ l2, q ≠ p := fun q hq heq => hd2 q hq (heq ▸ rfl)
+  have hmid : ∀ e ∈ enterAll l2 ++ h ++ exitAll l1 exc, e.obj? ≠ some p := by
+    intro e he
+    rcases List.mem_append.mp he with he | he
+    · rcases List.mem_append.mp he with he | he
+      · exact enterAll_obj l2 p hq2 e he
+      · exact hno e he p hp
+    · exact exitAll_obj l1 exc p hq1 e he
+  have hshape : enterAll (l1 ++ p :: l2) ++ h ++ exitAll (l1 ++ p :: l2) exc
+      = enterAll l1 ++ ((Event.enter p :: (enterAll l2 ++ h ++ exitAll l1 exc) ++ [Event.exit p exc]) ++ exitAll l2 exc) := by
+    simp [enterAll, exitAll]
+  rw [hshape, run_append, run_append,
+    run_globals_other K (exitAll l2 exc) _ p.1 (exitAll_cls l2 exc p.1 hd2)]
+  rcases exit_restores_entry_value K (run K s (enterAll l1)) p _ exc hmid with h1 | h1
+  · rw [h1, run_globals_other K (enterAll l1) s p.1 (enterAll_cls l1 p.1 hd1)]
+  · exfalso
+    have := run_objs_isSome K (enterAll l1) s p (hob p hp)
+    rw [h1] at this; simp at this
+
+/-- **Composite `__enter__` failing at member `j`** — what the code does: the first `j` members stay entered (they hold
+their instance values), the others are untouched, and `with` never calls `__exit__`.  FULL CLAIM WANTED BY THE
+PROPERTY (`composite_partial_enter_restores`): after a failed composite `__enter__` every member's setting has
+the value it had before.  That is FALSE for the code as it is (`composite_partial_enter_counterexample`); what
+holds is: once the already-entered prefix is exited (which is what notes/C17_fix_1.diff makes `__enter__` do
+before re-raising), every member is restored. -/
+theorem composite_partial_enter_restores_partial (K : Nat → Kind) (s : State) (ps : List ObjId) (j : Nat) (exc : Bool)
+    (hnd : (ps.map Prod.fst).Nodup) (hob : ∀ p ∈ ps, (s.objs p).isSome) :
+    (∀ p ∈ ps.drop j, (run K s (enterFail ps j)).globals p.1 = s.globals p.1) ∧
+    (∀ p ∈ ps, settingVal (K p.1) ((run K s (enterFail ps j ++ exitAll (ps.take j) exc)).globals p.1)
+      = settingVal (K p.1) (s.globals p.1)) := by
+  have hsplit : ps = ps.take j ++ ps.drop j := (List.take_append_drop j ps).symm
+  have hnd' : ((ps.take j).map Prod.fst ++ (ps.drop j).map Prod.fst).Nodup := by
+    rw [← List.map_append, ← hsplit]; exact hnd
+  have hdisj : ∀ q ∈ ps.take j, ∀ p ∈ ps.drop j, q.1 ≠ p.1 := by
+    intro q hq p hp
+    exact (List.nodup_append.mp hnd').2.2 q.1 (List.mem_map_of_mem hq) p.1 (List.mem_map_of_mem hp)
+  have hdrop : ∀ p ∈ ps.drop j, ∀ l : List Event, (∀ e ∈ l, ∃ q ∈ ps.take j, e.cls = q.1) →
+      (run K s l).globals p.1 = s.globals p.1 := by
+    intro p hp l hl
+    apply run_globals_other
+    intro e he heq
+    obtain ⟨q, hq, hq'⟩ := hl e he
+    exact hdisj q hq p hp (hq' ▸ heq)
+  refine ⟨?_, ?_⟩
+  · intro p hp
+    apply hdrop p hp
+    intro e he
+    simp only [enterFail, enterAll, List.mem_map] at he
+    obtain ⟨q, hq, rfl⟩ := he
+    exact ⟨q, hq, rfl⟩
+  · intro p hp
+    rw [hsplit] at hp
+    rcases List.mem_append.mp hp with hp | hp
+    · have := composite_block_restores K s (ps.take j) [] exc (List.nodup_append.mp hnd').1
+        (fun q hq => hob q (List.mem_of_mem_take hq)) (by simp) p hp
+      simpa [enterFail] using this
+    · rw [hdrop p hp]
+      intro e he
+      rcases List.mem_append.mp he with he | he
+      · simp only [enterFail, enterAll, List.mem_map] at he
+        obtain ⟨q, hq, rfl⟩ := he
+        exact ⟨q, hq, rfl⟩
+      · simp only [exitAll, List.mem_map] at he
+        obtain ⟨q, hq, rfl⟩ := he
+        exact ⟨q, hq, rfl⟩
+
+/-- The code as it is: `fast_computations.__enter__` whose second member raises leaves the first member set
+(default/unset `none` → `some 0`, i.e. `False`): a leak out of a `with` statement whose body never ran. -/
+theorem composite_partial_enter_counterexample :
+    ((run (fun _ => Kind.flag false) ⟨fun _ => ⟨none, none, none⟩, fun _ => none⟩
+      ([Event.construct (0, 1) ⟨some 0, none, none⟩, Event.construct (1, 1) ⟨some 0, none, none⟩,
+        Event.construct (2, 1) ⟨some 0, none, none⟩] ++ enterFail [(0, 1), (1, 1), (2, 1)] 1)).globals 0).a = some 0 := by
+  decide
+
 /-! ### Obligations on the table generated from today's `settings.py` -/
 
 open LinOp.Generated.C17 in
@@ -117,5 +530,183 @@ theorem table_composites_sound :
       c.enterOrder.Perm (c.parts.map Prod.fst) ∧ c.exitOrder.Perm (c.parts.map Prod.fst) ∧
       (∀ p ∈ c.parts, ∃ k ∈ classes, k.name = p.2) := by
   decide +kernel
+
+/-! ### Session 5: method bodies of today's `settings.py`, translated from the `ast`, pinned and refined -/
+
+/-- The statement lists of `__init__` / `__enter__` / `__exit__` / `_set_state` / `_set_value` of the three base
+classes and of `deterministic_probes` (the only setting class defining a protocol method), as translated from
+today's source, ARE the canonical bodies (parameters and defaults included); no other setting class defines a
+protocol method (any such method would be an extra row).  A body edit breaks this obligation. -/
+theorem bodies_pinned : LinOp.Generated.C17.methods = IR.canon := by decide +kernel
+
+/-- `value` / `value(dtype)` / `is_default` / `on` / `off` are the canonical readers. -/
+theorem readers_pinned : LinOp.Generated.C17.readers = IR.canonReaders := by decide +kernel
+
+/-- The composites' `__init__` / `__enter__` / `__exit__` are the canonical ones: members entered and exited in
+source order, `__exit__` returns `False`, and `__enter__` is either unguarded (the code as it is; a failing member
+leaves the earlier ones entered: `composite_partial_enter_counterexample`) or exactly the guarded form of
+notes/C17_fix_1.diff (earlier members exited in member order, exception re-raised:
+`composite_partial_enter_restores_partial`).  The harness reads the same text to choose the model of a failed enter. -/
+theorem composite_bodies_pinned :
+    LinOp.Generated.C17.compositeMethods = IR.canonComposite ∨
+    LinOp.Generated.C17.compositeMethods = IR.canonCompositeFixed := by decide +kernel
+
+/-- Refinement, for ALL values: the class-level setter a class of kind `k` resolves to computes `setOnEnter`. -/
+theorem ir_setter_refines (k : Kind) (g v : Slots) :
+    IR.setterOf IR.canon k [v.a, v.b, v.c] g = setOnEnter k g v := by
+  obtain ⟨va, vb, vc⟩ := v
+  cases k with
+  | flag r => cases r <;> rfl
+  | value => rfl
+  | dtype => cases va <;> cases vb <;> cases vc <;> rfl
+
+/-- Refinement, for ALL values: executing the canonical `__enter__` body is the model's `enter` step — it installs
+`setOnEnter k g inst`, keeps the instance value, and the snapshot it takes restores exactly like the model's. -/
+theorem ir_enter_refines (k : Kind) (g inst saved args : Slots) :
+    (IR.runMethod IR.canon k "__enter__" ⟨g, inst, saved, args⟩).g = setOnEnter k g inst ∧
+    (IR.runMethod IR.canon k "__enter__" ⟨g, inst, saved, args⟩).inst = inst ∧
+    (∀ g', restore k g' (IR.runMethod IR.canon k "__enter__" ⟨g, inst, saved, args⟩).saved = restore k g' g) := by
+  obtain ⟨ia, ib, ic⟩ := inst
+  cases k with
+  | flag r => cases r <;> exact ⟨rfl, rfl, fun _ => rfl⟩
+  | value => exact ⟨rfl, rfl, fun _ => rfl⟩
+  | dtype => cases ia <;> cases ib <;> cases ic <;> exact ⟨rfl, rfl, fun _ => rfl⟩
+
+/-- Refinement, for ALL values: the canonical `__exit__` body is the model's `restore`, ignores the exception
+info, and returns `False`. -/
+theorem ir_exit_refines (k : Kind) (env : IR.Env) :
+    (IR.runMethod IR.canon k "__exit__" env).g = restore k env.g env.saved ∧
+    IR.returnsFalse (IR.bodyOf IR.canon (IR.baseName k) "__exit__") = true := by
+  obtain ⟨g, inst, ⟨sa, sb, sc⟩, args⟩ := env
+  cases k with
+  | flag r => cases r <;> exact ⟨rfl, by decide⟩
+  | value => exact ⟨rfl, by decide⟩
+  | dtype => exact ⟨rfl, by decide⟩
+
+/-- Refinement, for ALL values: the canonical `__init__` body writes no class attribute, records the constructor
+arguments as the instance value, and its (unused) snapshot is the construction-time value. -/
+theorem ir_init_refines (k : Kind) (g inst saved args : Slots) :
+    (IR.runMethod IR.canon k "__init__" ⟨g, inst, saved, args⟩).g = g ∧
+    (∀ g', setOnEnter k g' (IR.runMethod IR.canon k "__init__" ⟨g, inst, saved, args⟩).inst = setOnEnter k g' args) ∧
+    (∀ g', restore k g' (IR.runMethod IR.canon k "__init__" ⟨g, inst, saved, args⟩).saved = restore k g' g) := by
+  cases k with
+  | flag r => cases r <;> exact ⟨rfl, fun _ => rfl, fun _ => rfl⟩
+  | value => exact ⟨rfl, fun _ => rfl, fun _ => rfl⟩
+  | dtype => exact ⟨rfl, fun _ => rfl, fun _ => rfl⟩
+
+/-! ### Session 5: the hand-written `step` IS the semantics of the pinned bodies, on all histories -/
+
+private theorem ir_exit_keeps_obj (k : Kind) (env : IR.Env) :
+    (IR.runMethod IR.canon k "__exit__" env).inst = env.inst ∧
+    (IR.runMethod IR.canon k "__exit__" env).saved = env.saved := by
+  obtain ⟨g, inst, ⟨sa, sb, sc⟩, args⟩ := env
+  cases k with
+  | flag r => cases r <;> exact ⟨rfl, rfl⟩
+  | value => exact ⟨rfl, rfl⟩
+  | dtype => exact ⟨rfl, rfl⟩
+
+private theorem sim_step (K : Nat → Kind) (s1 s2 : State) (e : Event) (hs : IR.Sim K s1 s2) :
+    IR.Sim K (step K s1 e) (IR.stepIR IR.canon K s2 e) := by
+  obtain ⟨hg, ho⟩ := hs
+  cases e with
+  | construct o inst =>
+    have hi := ir_init_refines (K o.1) (s2.globals o.1) IR.none3 IR.none3 inst
+    refine ⟨?_, ?_⟩
+    · intro c
+      simp only [step, IR.stepIR, upd]
+      split
+      · rename_i h; rw [hi.1, h, hg]
+      · exact hg c
+    · intro o'
+      simp only [step, IR.stepIR, upd]
+      split
+      · rename_i h; subst h
+        exact ⟨fun g => (hi.2.1 g).symm, fun g => by rw [hi.2.2 g, hg]⟩
+      · exact ho o'
+  | enter o =>
+    have hoo := ho o
+    simp only [step, IR.stepIR]
+    cases h1 : s1.objs o with
+    | none =>
+      cases h2 : s2.objs o with
+      | none => exact ⟨hg, ho⟩
+      | some b => rw [h1, h2] at hoo; exact hoo.elim
+    | some a =>
+      cases h2 : s2.objs o with
+      | none => rw [h1, h2] at hoo; exact hoo.elim
+      | some b =>
+        rw [h1, h2] at hoo
+        have hi := ir_enter_refines (K o.1) (s2.globals o.1) b.inst b.saved IR.none3
+        refine ⟨?_, ?_⟩
+        · intro c
+          simp only [upd]
+          split
+          · rw [hi.1, hg, hoo.1]
+          · exact hg c
+        · intro o'
+          simp only [upd]
+          split
+          · rename_i h; subst h
+            exact ⟨fun g => by rw [hi.2.1]; exact hoo.1 g, fun g => by rw [hi.2.2 g, hg]⟩
+          · exact ho o'
+  | exit o exc =>
+    have hoo := ho o
+    simp only [step, IR.stepIR]
+    cases h1 : s1.objs o with
+    | none =>
+      cases h2 : s2.objs o with
+      | none => exact ⟨hg, ho⟩
+      | some b => rw [h1, h2] at hoo; exact hoo.elim
+    | some a =>
+      cases h2 : s2.objs o with
+      | none => rw [h1, h2] at hoo; exact hoo.elim
+      | some b =>
+        rw [h1, h2] at hoo
+        have hi := ir_exit_refines (K o.1) ⟨s2.globals o.1, b.inst, b.saved, IR.none3⟩
+        have hk := ir_exit_keeps_obj (K o.1) ⟨s2.globals o.1, b.inst, b.saved, IR.none3⟩
+        refine ⟨?_, ?_⟩
+        · intro c
+          simp only [upd]
+          split
+          · rw [hi.1, hg]; exact hoo.2 _
+          · exact hg c
+        · intro o'
+          simp only [upd]
+          split
+          · rename_i h; subst h
+            rw [h1, hk.1, hk.2]; exact hoo
+          · exact ho o'
+  | poke c v =>
+    refine ⟨?_, ho⟩
+    intro c'
+    simp only [step, IR.stepIR, upd]
+    split
+    · rw [hg]
+    · exact hg c'
+  | set c v =>
+    refine ⟨?_, ho⟩
+    intro c'
+    simp only [step, IR.stepIR, upd]
+    split
+    · rw [ir_setter_refines, hg]
+    · exact hg c'
+
+/-- **Refinement over histories**: run any history through the bodies translated from today's `settings.py`
+(`Generated.C17.methods`, executed by the IR semantics) and through the hand-written model `step`: starting from
+related states (e.g. the same state without context objects) the class attributes agree after every history, for every
+class table `K`.  So every theorem above about `run` is a theorem about the translated code. -/
+theorem model_refines_translated_bodies (K : Nat → Kind) (h : List Event) (s1 s2 : State) (hs : IR.Sim K s1 s2) :
+    IR.Sim K (run K s1 h) (IR.runIR LinOp.Generated.C17.methods K s2 h) := by
+  rw [bodies_pinned]
+  induction h generalizing s1 s2 with
+  | nil => exact hs
+  | cons e h ih => exact ih _ _ (sim_step K s1 s2 e hs)
+
+/-- Non-vacuity: a state without context objects is related to itself, and related states have equal attributes. -/
+example (K : Nat → Kind) (g : Nat → Slots) : IR.Sim K ⟨g, fun _ => none⟩ ⟨g, fun _ => none⟩ :=
+  ⟨fun _ => rfl, fun _ => trivial⟩
+
+/-- The canonical bodies contain no statement outside the IR. -/
+theorem ir_no_unknown_statement : ∀ m ∈ IR.canon, IR.noOther m.body = true := by decide +kernel
 
 end LinOp.C17
